@@ -5,7 +5,8 @@ its value once.  Structural: no expression handler writes Compiler.table."""
 import ast as _ast
 from pyvc.spec import *
 
-COMPILER = Obj('beanquery.compiler:Compiler', fields=dict(table=Opaque('table'), context=Opaque('conn'), parameters=Dyn()))
+COMPILER = Obj('beanquery.compiler:Compiler', fields=dict(table=Opaque('table'), context=Opaque('conn'), parameters=Dyn(),
+                                                           depth=Int(0), subquery=Bool()))
 
 
 @contract('beanquery.compiler:Compiler._compile_select')
@@ -21,11 +22,13 @@ class compile_select_assumed:
 class select_frames_table:
     props = ['C08', 'C01']
     params = {'self': COMPILER, 'node': Opaque('ast')}
-    modifies = ['self.parameters']        # i.e. self.table must be unchanged on normal AND exceptional exit
+    modifies = ['self.parameters', 'self.subquery']   # i.e. self.table and self.depth are unchanged on normal AND exceptional exit
     raises = {'ProgrammingError': None, 'Exception': None}
     native = False
     assumes = ['_compile_select may set self.table and may raise (assumed callee contract; its own obligations are bounded, see h08)']
-    ensures = [('table-restored', lambda old, self: self.table == old.self.table)]
+    ensures = [('table-restored', lambda old, self: self.table == old.self.table),
+               ('nested-select-only-where-allowed', lambda old: old.self.depth == 0 or old.self.subquery),
+               ('subquery-permission-consumed', lambda self: self.subquery is False)]
 
 
 STRUCTURAL = []
